@@ -27,6 +27,14 @@ fn u64_values(t: &mut Tape, truth: u64) -> Vec<u64> {
         t.u64() >> 1,
         t.below(4096),
     ];
+    // the true value with two equal 7-bit groups flipped in (stored integers come in
+    // 7-bit groups; a decoder that lets two groups overlap cancels them out)
+    {
+        let i = t.range(0, 7);
+        let j = t.range(i + 1, 8);
+        let p7 = t.range(1, 0x7F);
+        v.push(truth ^ (p7 << (7 * i)) ^ (p7 << (7 * j)));
+    }
     v.retain(|x| *x != truth && *x < (1 << 63));
     v.sort();
     v.dedup();
